@@ -328,37 +328,12 @@ Definition special_opcodes (T : tables) (mid : Z) (m : mnem) (opmode : mode) (ar
       else DOk (idf, arf, pxf)
   end.
 
-(** _dis *)
-Definition dis_core (T : tables) (opmode0 : mode) (bytes : list Z) : dres instr :=
-  dod '(mo, c, rp, bs1) <- walk T 32 (t_trie T) false [] [] bytes;
-  match mo with
-  | None => DNone
-  | Some mid0 =>
-    match nthZ (t_mnemos T) mid0 with
-    | None => DCrash CIndex
-    | Some m0 =>
-      let has66 := memZ 102 rp in
-      let opmode1 := if has66 then toggle opmode0 else opmode0 in
-      (* cwde / cdq under 0x66 *)
-      dod '(mid, m, rp1) <-
-        (if has66 && name_in (mn_name m0) ["cwde"; "cdq"] then
-           match nthZ (t_trie T) 102, mn_opc m0 with
-           | Some (TN ch), o0 :: _ =>
-               match nthZ ch o0 with
-               | Some (TM id) => match nthZ (t_mnemos T) id with
-                                 | Some m' => DOk (id, m', filter (fun p => negb (p =? 102)) rp)
-                                 | None => DCrash CIndex end
-               | Some TNone => DCrash CAttr      (* None has no attribute afs *)
-               | _ => DCrash CAttr
-               end
-           | _, _ => DCrash CType
-           end
-         else DOk (mid0, m0, rp));
-      let admode1 := if memZ 103 rp1 then toggle opmode0 else opmode0 in
-      let swap0 := truthy (m_sw m) in
-      let afs := mn_afs m in let dibs := mn_rm m in
-      dod '(margs, opmode2, admode2, swap, bs2) <-
-        (if (0 <=? afs) && (afs <=? 7) then
+(** the ModRM-dependent operands of _dis: reads the ModRM byte (when the opcode does not carry it), SIB and displacement *)
+Definition dis_modrm (T : tables) (m : mnem) (c : Z) (rp1 : list Z) (opmode1 admode1 : mode) (bs1 : list Z)
+  : dres (list arg * mode * mode * bool * list Z) :=
+  let swap0 := truthy (m_sw m) in
+  let afs := mn_afs m in let dibs := mn_rm m in
+  (if (0 <=? afs) && (afs <=? 7) then
            let admode' := if truthy (m_mmx m) then (if list_eqb rp1 [] then Mmm else if list_eqb rp1 [102] then Mxmm else admode1) else admode1 in
            dod '(re, modr, r) <- get_afs T bs1 c admode';
            let a := set_size modr opmode1 in
@@ -400,18 +375,53 @@ Definition dis_core (T : tables) (opmode0 : mode) (bytes : list Z) : dres instr 
              let l' := if (afs =? 10) && prefixb "set" (mn_name m) then [modr5] else l in
              DOk (l', opm, adm, swap, r)
            else DOk ([], opmode1, admode1, swap0, bs1)
-         else DCrash CValue);
+         else DCrash CValue).
+
+(** _dis *)
+Definition dis_body (T : tables) (opmode0 : mode) (bytes : list Z) : dres ((Z -> dres instr) * list Z) :=
+  dod '(mo, c, rp, bs1) <- walk T 32 (t_trie T) false [] [] bytes;
+  match mo with
+  | None => DNone
+  | Some mid0 =>
+    match nthZ (t_mnemos T) mid0 with
+    | None => DCrash CIndex
+    | Some m0 =>
+      let has66 := memZ 102 rp in
+      let opmode1 := if has66 then toggle opmode0 else opmode0 in
+      (* cwde / cdq under 0x66 *)
+      dod '(mid, m, rp1) <-
+        (if has66 && name_in (mn_name m0) ["cwde"; "cdq"] then
+           match nthZ (t_trie T) 102, mn_opc m0 with
+           | Some (TN ch), o0 :: _ =>
+               match nthZ ch o0 with
+               | Some (TM id) => match nthZ (t_mnemos T) id with
+                                 | Some m' => DOk (id, m', filter (fun p => negb (p =? 102)) rp)
+                                 | None => DCrash CIndex end
+               | Some TNone => DCrash CAttr      (* None has no attribute afs *)
+               | _ => DCrash CAttr
+               end
+           | _, _ => DCrash CType
+           end
+         else DOk (mid0, m0, rp));
+      let admode1 := if memZ 103 rp1 then toggle opmode0 else opmode0 in
+      let swap0 := truthy (m_sw m) in
+      let afs := mn_afs m in let dibs := mn_rm m in
+      dod '(margs, opmode2, admode2, swap, bs2) <- dis_modrm T m c rp1 opmode1 admode1 bs1;
       let margs1 := if swap then rev margs else margs in
       dod '(margs2, dib_out, bs3) <- do_dibs T m opmode2 admode2 dibs bs2 margs1 [];
-      dod args <- mapD (post_arg T m rp1) (margs2 ++ dib_out)%list;
-      let len := Z.of_nat (List.length bytes) - Z.of_nat (List.length bs3) in
-      dod '(midf, argsf, pxf) <- special_opcodes T mid m opmode2 args rp1;
-      match nthZ (t_mnemos T) midf with
-      | Some mf => DOk (mkinstr pxf midf (mn_name mf) argsf len opmode2 admode2)
-      | None => DCrash CIndex
-      end
+      (* everything below is independent of the stream; the length is supplied by dis_core *)
+      DOk ((fun len : Z =>
+              dod args <- mapD (post_arg T m rp1) (margs2 ++ dib_out)%list;
+              dod '(midf, argsf, pxf) <- special_opcodes T mid m opmode2 args rp1;
+              match nthZ (t_mnemos T) midf with
+              | Some mf => DOk (mkinstr pxf midf (mn_name mf) argsf len opmode2 admode2)
+              | None => DCrash CIndex
+              end), bs3)
     end
   end.
+Definition dis_core (T : tables) (opmode0 : mode) (bytes : list Z) : dres instr :=
+  dod '(k, bs3) <- dis_body T opmode0 bytes;
+  k (Z.of_nat (List.length bytes) - Z.of_nat (List.length bs3)).
 
 Definition dis (T : tables) (bytes : list Z) : outcome :=
   match dis_core T Mu32 bytes with
